@@ -31,8 +31,12 @@ func c04Messages() []sess.MsgSpec {
 		{MID: "C04ATTACH004", Body: "two files\r\n", Files: []sess.FileSpec{{Name: "a.txt", Data: []byte("aaaaaaaaaaaaaaaaaaaaaaaaaaaaaaaaaaaaaaaaaaaaaaaaaaaaaaaaaaaaaaaaaaaaaaaa")}, {Name: "z.bin", Data: make([]byte, 64)}}},
 		{MID: "C04LATIN0005", Subject: "Blåbær", Body: "æøå ÆØÅ ÿ\r\nsecond line\r\n"},
 		{MID: "C04EXACT0006", Body: bodyForCompressedSize("C04EXACT0006", 250)},
+		// index 6, used by the "large" family only: more than 64 KiB uncompressed, about a hundred blocks
+		{MID: "C04LARGE0007", Body: lcgText(70000, 23)},
 	}
 }
+
+const c04Large = 6
 
 type c04Base struct {
 	spec       sess.MsgSpec
@@ -220,7 +224,7 @@ func C04(args []string) {
 	}
 	nm := 3
 	if r.Thorough() {
-		nm = len(msgs)
+		nm = c04Large // the large message has its own family below
 	}
 	var cases []c04Case
 	for mi := 0; mi < nm; mi++ {
@@ -264,6 +268,26 @@ func C04(args []string) {
 			for _, d := range []byte{1, 0x80} {
 				cases = append(cases, c04Case{Msg: mi, Kind: "pair-with-checksum", Edits: []link.Edit{{Off: o1, Del: 1, Ins: []byte{b.wire[o1] + d}}, {Off: b.end - 1, Del: 1, Ins: []byte{b.wire[b.end-1] - d}}}})
 			}
+		}
+	}
+	// a large message (size-dependent paths): sum-preserving pairs, substitutions and checksum-compensated
+	// changes at every 97th (thorough: 13th) data byte, and the first and last 16
+	{
+		b := c04Prepare(msgs[c04Large])
+		step := 97
+		if r.Thorough() {
+			step = 13
+		}
+		for i, o1 := range b.dataOffs {
+			if i%step != 0 && i >= 16 && i < len(b.dataOffs)-17 {
+				continue
+			}
+			if i+1 < len(b.dataOffs) {
+				o2 := b.dataOffs[i+1]
+				cases = append(cases, c04Case{Msg: c04Large, Kind: "pair-large", Edits: []link.Edit{{Off: o1, Del: 1, Ins: []byte{b.wire[o1] + 1}}, {Off: o2, Del: 1, Ins: []byte{b.wire[o2] - 1}}}})
+			}
+			cases = append(cases, c04Case{Msg: c04Large, Kind: "subst-large", Edits: []link.Edit{{Off: o1, Del: 1, Ins: []byte{b.wire[o1] ^ 0x55}}}},
+				c04Case{Msg: c04Large, Kind: "pair-with-checksum-large", Edits: []link.Edit{{Off: o1, Del: 1, Ins: []byte{b.wire[o1] + 1}}, {Off: b.end - 1, Del: 1, Ins: []byte{b.wire[b.end-1] - 1}}}})
 		}
 	}
 	// blocks of two and three accepted messages: damage in a transfer that is not the last of its
